@@ -482,6 +482,56 @@ theorem run_hmmer_gene_perm_invariant (cut : Int → Option Int) (minScore maxEv
     runHmmerGene cut minScore maxEvalue r₂ = .ok out :=
   runHmmerGene_perm cut minScore maxEvalue h out h1
 
+/-! ### neighbour mode (the NRPS/PKS callers): a complete raw hit with no rival comes back -/
+
+/-- **neighbour mode resolves overlaps between the raw hits before it merges**: a raw hit covering
+    more than half of its profile, with which no other raw hit scoring at least as high collides,
+    lies inside a returned hit of its profile (itself, or a merge with immediately neighbouring
+    fragments) that has at least its score — the same as the executable relation the harness
+    evaluates on the real callers' output.  The generic mode does not have this property
+    (example below), which is why `find_subtypes` / `find_domains` / `find_ab_motifs` must ask for
+    `neighbour_mode=True` -/
+theorem neighbour_mode_keeps_uncontested_complete (env : Env) (l : List Hit) :
+    uncontestedCompleteKept env (sortHits l) (refine env true l) = true :=
+  uncontestedCompleteKept_refine env l
+
+/-- … and what it merges are *immediate neighbours*: every returned hit is the merge (`isMergeOf`) of a
+    contiguous piece of the list of raw hits that survive the overlap pass — a single survivor, or
+    consecutive same-profile survivors with nothing kept between them -/
+theorem neighbour_mode_merges_immediate_neighbours (env : Env) (l : List Hit) : ∀ o ∈ refine env true l,
+    ∃ F, F <:+: removeOverlapping env (sortHits l) ∧ isMergeOf env F o = true := by
+  intro o ho
+  obtain ⟨F, hin, hm⟩ := refine_neighbour_infix env l o ho
+  exact ⟨F, hin, isMergeOf_of env hm⟩
+
+/-- the same through `find_domains` (non-docking profiles; docking domains are filtered by position) -/
+theorem find_domains_keeps_uncontested_complete (env : Env) (L : Int) (raw : List Hit) (x : Hit) (hx : x ∈ raw)
+    (hcx : complete env x = true) (hnd : env.dock x.prof = false)
+    (hun : ∀ k ∈ raw, k ≠ x → x.sc ≤ k.sc → collide env k x = false) :
+    ∃ m ∈ findDomainsGene env L raw, covers m x = true := by
+  obtain ⟨m, hm, hc⟩ := findDomainsGene_keeps env L raw x hx hcx hnd hun
+  exact ⟨m, hm, (covers_iff m x).mpr hc⟩
+
+/-- … and through `find_subtypes`: such a sub-type hit overlapping a target domain is attached to
+    it (under the callback's name), possibly inside a merge of immediate neighbours -/
+theorem find_subtypes_keeps_uncontested_complete (env : Env) (strip : Int → Int) (raw : List Hit) (d x : Hit)
+    (hx : x ∈ raw) (hcx : complete env x = true) (hov : overlapsWith x d = true)
+    (hun : ∀ k ∈ raw, k ≠ x → x.sc ≤ k.sc → collide env k x = false) :
+    ∃ m, covers m x = true ∧ ({ m with prof := strip m.prof } : Hit) ∈ subtypeHits env strip raw d := by
+  obtain ⟨m, hc, hm⟩ := subtypeHits_keeps env strip raw d x hx hcx hov hun
+  exact ⟨m, (covers_iff m x).mpr hc, hm⟩
+
+/-- non-vacuity (the seeded scenario): a complete hit of profile 0 at `[0,60)`, a better hit of profile 1
+    at `[70,140)`, and a weak fragment of profile 0 at `[100,130)` underneath it.  Neighbour mode drops the
+    fragment and keeps both complete hits; the generic mode first fuses the two profile-0 hits into
+    `[0,130)`, which then loses to profile 1 as a whole — the complete, uncontested `[0,60)` is gone -/
+example : refine { len := fun _ => 100 } true [⟨0, 0, 60, 1, 300⟩, ⟨1, 70, 140, 1, 500⟩, ⟨0, 100, 130, 2, 100⟩] =
+    [⟨0, 0, 60, 1, 300⟩, ⟨1, 70, 140, 1, 500⟩] := by decide
+example : refine { len := fun _ => 100 } false [⟨0, 0, 60, 1, 300⟩, ⟨1, 70, 140, 1, 500⟩, ⟨0, 100, 130, 2, 100⟩] =
+    [⟨1, 70, 140, 1, 500⟩] := by decide
+example : uncontestedCompleteKept { len := fun _ => 100 }
+    (sortHits [⟨0, 0, 60, 1, 300⟩, ⟨1, 70, 140, 1, 500⟩, ⟨0, 100, 130, 2, 100⟩]) [⟨1, 70, 140, 1, 500⟩] = false := by decide
+
 /-- `refine_hmmscan_results` on a whole hmmscan output (`gather_by_query` + the gene loop): a gene's
     entry is the refinement of that gene's own hits — genes do not interact, interleaving is irrelevant,
     a gene without surviving hits has no entry (`get(gene, [])` is then the empty refinement) … -/
